@@ -371,13 +371,13 @@ int main() {{
         both = struct.unpack(f"<{3*neq}d", (d / "out.bin").read_bytes())
         got, got3, got2 = both[:neq], both[neq : 2 * neq], both[2 * neq :]
         for sl, e in exp.items():
-            if abs(got3[sl] - e) > 1e-9 * max(abs(e), 1e-300):
+            if not (abs(got3[sl] - e) <= 1e-9 * max(abs(e), 1e-300)):  # written so that NaN fails
                 return 1, [(f"C16:compiled-renorm-differs:{backend}:second-call", f"{'+'.join(species)} [{backend}]: a second Renorm on the same object (same reference, same input state) gives ab[{sl}] = {got3[sl]!r}, the first call and the exact solution give {e!r}", case)]
         for sl, e in exp.items():
-            if abs(got[sl] - e) > 1e-9 * max(abs(e), 1e-300):
+            if not (abs(got[sl] - e) <= 1e-9 * max(abs(e), 1e-300)):  # written so that NaN fails
                 return 1, [(f"C16:compiled-renorm-differs:{backend}:opt0", f"{'+'.join(species)} [{backend}]: SetReferenceAbund(ref, 0) with un-normalised element abundances, then Renorm: ab[{sl}] = {got[sl]!r}, exact solution for ref/ref_H {e!r}", case)]
         for sl, e in exp2.items():
-            if abs(got2[sl] - e) > 1e-9 * max(abs(e), 1e-300):
+            if not (abs(got2[sl] - e) <= 1e-9 * max(abs(e), 1e-300)):  # written so that NaN fails
                 return 1, [(f"C16:compiled-renorm-differs:{backend}:opt1", f"{'+'.join(species)} [{backend}]: SetReferenceAbund(species vector, 1), then Renorm: ab[{sl}] = {got2[sl]!r}, exact solution {e!r}", case)]
         return 2, []
     finally:
